@@ -7,6 +7,7 @@ import Hw.Topo.Render
 import Hw.Topo.RenderLemmas
 import Hw.Topo.RenderOf
 import Hw.Topo.RestrictSurvive
+import Hw.Topo.RestrictMerge
 import Hw.Topo.WF
 import Driver.Topo
 import Driver.Util
@@ -132,7 +133,10 @@ def verdict (st : State) (c : Call) (bd : Dump) (braw : List (List String)) (ad 
       (if (typedT tree && puLeafT tree && isNormal tree.obj.type) || !(wfCheck bd).isEmpty then [] else ["hypothesis-typedT-fails-on-a-WF-before-dump"]) ++
       -- A8: what C08_wf_implies_okT proves for every WF dump, evaluated: Machine root, PU / NUMA singletons, leaf hypotheses
       (if (tree.obj.type == tMACHINE && puSetsT tree && numaSetsT tree && leafTyT tPU tree && leafTyT tNUMA tree) ||
-          !(wfCheck bd).isEmpty then [] else ["hypothesis-singletons-fails-on-a-WF-before-dump"])
+          !(wfCheck bd).isEmpty then [] else ["hypothesis-singletons-fails-on-a-WF-before-dump"]) ++
+      -- A8: hypothesis of C08_merge_keeps_pus / C08_pus_exact_whole / C08_restrict_wf_partial: distinct gp_index over the TREE, no
+      -- KEEP_STRUCTURE filter on the PU type and on the root's type
+      (if decide (mergeSafe topo) || !(wfCheck bd).isEmpty then [] else ["hypothesis-mergeSafe-fails-on-a-WF-before-dump"])
     let (topo', ret) := restrict topo c.set c.flags
     match ret with
     | .rootRemoved => ("MODEL-UNDEFINED root-would-be-removed", .unknown)
@@ -155,7 +159,10 @@ def verdict (st : State) (c : Call) (bd : Dump) (braw : List (List String)) (ad 
                           (extraOf tb (gpTable ad))) ad with
           | none => [] | some s => ["render-after:" ++ s]) ++
         (if (typedT topo'.tree && puLeafT topo'.tree && isNormal topo'.tree.obj.type) || !(typedT tree && puLeafT tree) then [] else ["hypothesis-typedT-not-preserved"]) ++
-        (if (wfCheck bd).isEmpty then survivorsCheck tree topo c ad else [])
+        (if (wfCheck bd).isEmpty then survivorsCheck tree topo c ad else []) ++
+        -- A8: C08_restrict_leaf_root evaluated: mergeSafe and the identity of the root are preserved
+        (if (decide (mergeSafe topo') && ident topo'.tree.obj == ident tree.obj) || !(decide (mergeSafe topo) && typedT tree && puLeafT tree)
+          then [] else ["mergeSafe-or-root-not-preserved"])
       ("ret=0 errno=ok" ++ (if probs.isEmpty then "" else " MISMATCH " ++ ",".intercalate probs), .restricted topo'.tree)
 
 def sideObjs (t : Tree) : List Hw.Dist.Obj := (rowsT (-1) t).map (fun r => RestrictSide.mkObj r.type r.gp r.osidx)
